@@ -354,3 +354,182 @@ Proof.
   exists rb, q. repeat split; try assumption.
   intro E. apply Hneq. symmetry. exact E.
 Qed.
+
+(* ------------------------------------------------------------------ entry points *)
+(* what an access may reach: a link-free location under the canonical root; os.makedirs(exist_ok) may
+   in addition name an ancestor of the root (it creates missing directories only) *)
+Definition touch_ok (t : tree) (rb : loc) (a : access) : Prop :=
+  names (snd a) /\ no_link_prefix t (snd a) = true /\
+  (is_prefix rb (snd a) = true \/ (fst a = AMkdirs /\ is_prefix (snd a) rb = true)).
+
+Definition guard_result (d : nat) (t : tree) (cwd : loc) (dirs : list comp) (base : pstr) (rb : loc) (g : guard) (p : pstr) : res loc :=
+  match g with
+  | GResolve => resolve d t cwd base p
+  | GFileTarget => file_target rb (resolve d t cwd base p)
+  | GArrow => arrow_path d t cwd dirs base p
+  | GArrowWrite => file_target rb (arrow_path d t cwd dirs base p)
+  end.
+
+Lemma resolve_ok_rb : forall d t cwd base p q rb, realpath d t cwd base = Ok rb -> resolve d t cwd base p = Ok q ->
+  names q /\ no_link_prefix t q = true /\ is_prefix rb q = true.
+Proof.
+  intros d t cwd base p q rb Hb Hr. apply resolve_ok in Hr. destruct Hr as [rb' [Eb' [_ [Hp [Hn [Nq _]]]]]].
+  rewrite Hb in Eb'. inversion Eb'; subst. auto.
+Qed.
+
+Lemma arrow_ok_rb : forall d t cwd dirs base p q rb, realpath d t cwd base = Ok rb -> arrow_path d t cwd dirs base p = Ok q ->
+  names q /\ no_link_prefix t q = true /\ is_prefix rb q = true.
+Proof.
+  intros d t cwd dirs base p q rb Hb Hr. apply arrow_path_ok in Hr. destruct Hr as [rb' [Eb' [Hp [Hn [Nq _]]]]].
+  rewrite Hb in Eb'. inversion Eb'; subst. auto.
+Qed.
+
+Lemma guard_result_ok : forall d t cwd dirs base rb g p q,
+  realpath d t cwd base = Ok rb -> guard_result d t cwd dirs base rb g p = Ok q ->
+  names q /\ no_link_prefix t q = true /\ is_prefix rb q = true
+  /\ ((g = GFileTarget \/ g = GArrowWrite) -> q <> rb).
+Proof.
+  intros d t cwd dirs base rb g p q Hb H.
+  destruct g; simpl in H.
+  - destruct (resolve_ok_rb _ _ _ _ _ _ _ Hb H) as [A [B C0]]. repeat split; try assumption. intros [X|X]; discriminate.
+  - unfold file_target in H. destruct (resolve d t cwd base p) as [q0|e] eqn:E; [|discriminate].
+    destruct (leqb q0 rb) eqn:El; inversion H; subst. apply leqb_neq in El.
+    destruct (resolve_ok_rb _ _ _ _ _ _ _ Hb E) as [A [B C0]]. repeat split; try assumption. intros _. exact El.
+  - destruct (arrow_ok_rb _ _ _ _ _ _ _ _ Hb H) as [A [B C0]]. repeat split; try assumption. intros [X|X]; discriminate.
+  - unfold file_target in H. destruct (arrow_path d t cwd dirs base p) as [q0|e] eqn:E; [|discriminate].
+    destruct (leqb q0 rb) eqn:El; inversion H; subst. apply leqb_neq in El.
+    destruct (arrow_ok_rb _ _ _ _ _ _ _ _ Hb E) as [A [B C0]]. repeat split; try assumption. intros _. exact El.
+Qed.
+
+Lemma touch_ok_self : forall t rb k q, names q -> no_link_prefix t q = true -> is_prefix rb q = true -> touch_ok t rb (k, q).
+Proof. intros. unfold touch_ok. simpl. auto. Qed.
+
+Lemma touch_ok_parent_strict : forall t rb k q, names q -> no_link_prefix t q = true -> is_prefix rb q = true -> q <> rb ->
+  touch_ok t rb (k, parent q).
+Proof.
+  intros t rb k q Nq Hn Hp Hne. unfold touch_ok, parent. simpl. split; [apply names_removelast; exact Nq|].
+  split; [eapply no_link_prefix_of_prefix; [apply is_prefix_removelast_self|exact Hn]|].
+  left. apply is_prefix_removelast; [exact Hp|]. intro E. apply Hne. symmetry. exact E.
+Qed.
+
+Lemma touch_ok_parent_mkdirs : forall t rb q, names q -> no_link_prefix t q = true -> is_prefix rb q = true ->
+  touch_ok t rb (AMkdirs, parent q).
+Proof.
+  intros t rb q Nq Hn Hp. destruct (loc_eq_dec q rb) as [->|Hne].
+  - unfold touch_ok, parent. simpl. split; [apply names_removelast; exact Nq|].
+    split; [eapply no_link_prefix_of_prefix; [apply is_prefix_removelast_self|exact Hn]|].
+    right. split; [reflexivity|apply is_prefix_removelast_self].
+  - apply touch_ok_parent_strict; assumption.
+Qed.
+
+(* every entry point of the generated table: the raw string goes through the recorded guard and the OS
+   is handed only the guard's result or its parent directory, all link-free and under the root *)
+Lemma run_entry_ok : forall d t cwd base ep g p accs,
+  In (ep, g) gen_entry_guards ->
+  run_entry d t cwd gen_table_dirs base ep p = Ok accs ->
+  exists rb q, realpath d t cwd base = Ok rb
+    /\ guard_result d t cwd gen_table_dirs base rb g p = Ok q
+    /\ Forall (fun a => (snd a = q \/ snd a = parent q) /\ touch_ok t rb a) accs.
+Proof.
+  intros d t cwd base ep g p accs Hin H. unfold run_entry in H.
+  destruct (realpath d t cwd base) as [rb|e] eqn:Eb; [|discriminate]. exists rb.
+  unfold gen_entry_guards in Hin.
+  destruct ep; simpl in Hin;
+    repeat (destruct Hin as [Hin|Hin]; [try discriminate; inversion Hin; subst g; clear Hin|]); try contradiction;
+    cbv beta iota zeta in H;
+    match type of H with
+    | match ?r with Ok _ => _ | Err _ => _ end = Ok _ =>
+      destruct r as [q|e0] eqn:Eg; [|discriminate]; inversion H; subst accs; clear H; exists q
+    end;
+    (split; [reflexivity|]); (split; [exact Eg|]);
+    match type of Eg with
+    | resolve _ _ _ _ _ = _ => pose proof (guard_result_ok d t cwd gen_table_dirs base rb GResolve p q Eb Eg) as [Nq [Hn [Hp _]]]
+    | arrow_path _ _ _ _ _ _ = _ => pose proof (guard_result_ok d t cwd gen_table_dirs base rb GArrow p q Eb Eg) as [Nq [Hn [Hp _]]]
+    | file_target _ (resolve _ _ _ _ _) = _ =>
+      pose proof (guard_result_ok d t cwd gen_table_dirs base rb GFileTarget p q Eb Eg) as [Nq [Hn [Hp Hne]]]; specialize (Hne (or_introl eq_refl))
+    | file_target _ (arrow_path _ _ _ _ _ _) = _ =>
+      pose proof (guard_result_ok d t cwd gen_table_dirs base rb GArrowWrite p q Eb Eg) as [Nq [Hn [Hp Hne]]]; specialize (Hne (or_intror eq_refl))
+    end;
+    repeat (apply Forall_cons;
+            [split; [simpl; auto|first [apply touch_ok_self; assumption | apply touch_ok_parent_mkdirs; assumption | apply touch_ok_parent_strict; assumption]]|]);
+    apply Forall_nil.
+Qed.
+
+(* ------------------------------------------------------------------ fuel: one unit per link in the tree suffices *)
+Definition is_link_entry (e : loc * node) : bool := match snd e with Link _ => true | _ => false end.
+Definition link_keys (t : tree) : list loc := map fst (filter is_link_entry t).
+Definition count_links (t : tree) : nat := length (link_keys t).
+
+Lemma assoc_in : forall t p n, assoc p t = Some n -> In (p, n) t.
+Proof.
+  induction t as [|[k v] t IH]; intros p n H; simpl in H; [discriminate|].
+  destruct (leqb p k) eqn:E.
+  - inversion H; subst. apply leqb_eq in E. subst. left. reflexivity.
+  - right. apply IH. exact H.
+Qed.
+
+Lemma lstat_at_link_in : forall t rest pre tg, lstat_at t pre rest = Some (Link tg) -> In (pre ++ rest, Link tg) t.
+Proof.
+  intros t. induction rest as [|c rest IH]; intros pre tg H; simpl in H.
+  - rewrite app_nil_r. unfold look in H. destruct pre; [discriminate|]. apply assoc_in. exact H.
+  - destruct (look t pre) as [[| |tg0]|]; try discriminate. apply IH in H. rewrite <- app_assoc in H. exact H.
+Qed.
+
+Lemma lstat_link_key : forall t p tg, lstat t p = Some (Link tg) -> In p (link_keys t).
+Proof.
+  intros t p tg H. apply lstat_at_link_in in H. simpl in H. unfold link_keys.
+  change p with (fst (p, Link tg)). apply in_map. apply filter_In. split; [exact H|reflexivity].
+Qed.
+
+Lemma mem_false_not_in : forall p l, mem p l = false -> ~ In p l.
+Proof.
+  intros p l H Hin. unfold mem in H. assert (existsb (leqb p) l = true); [|congruence].
+  apply existsb_exists. exists p. split; [exact Hin|apply leqb_refl].
+Qed.
+
+Lemma jrp_fuel : forall t d rest path seen,
+  NoDup seen -> incl seen (link_keys t) -> (count_links t <= d + length seen)%nat ->
+  jrp d t path rest seen <> RPFuel.
+Proof.
+  intros t. induction d as [|d IHd].
+  - induction rest as [|c rest IH]; intros path seen Hnd Hinc Hlen.
+    + rewrite jrp_nil. discriminate.
+    + rewrite jrp_cons. destruct (is_skip c); [apply IH; assumption|]. destruct (is_up c); [apply IH; assumption|].
+      destruct (lstat t (path ++ [c])) as [[| |tg]|] eqn:El; try (apply IH; assumption).
+      destruct (mem (path ++ [c]) seen) eqn:Em; [discriminate|]. exfalso.
+      apply mem_false_not_in in Em. apply lstat_link_key in El.
+      assert (Hnd' : NoDup ((path ++ [c]) :: seen)) by (constructor; assumption).
+      assert (Hinc' : incl ((path ++ [c]) :: seen) (link_keys t)) by (intros x [<-|Hx]; [exact El|apply Hinc; exact Hx]).
+      pose proof (NoDup_incl_length Hnd' Hinc') as Hl. cbn [length] in Hl. unfold count_links, loc, comp in *. lia.
+  - induction rest as [|c rest IH]; intros path seen Hnd Hinc Hlen.
+    + rewrite jrp_nil. discriminate.
+    + rewrite jrp_cons. destruct (is_skip c); [apply IH; assumption|]. destruct (is_up c); [apply IH; assumption|].
+      destruct (lstat t (path ++ [c])) as [[| |tg]|] eqn:El; try (apply IH; assumption).
+      destruct (mem (path ++ [c]) seen) eqn:Em; [discriminate|].
+      apply mem_false_not_in in Em. apply lstat_link_key in El.
+      assert (Hnd' : NoDup ((path ++ [c]) :: seen)) by (constructor; assumption).
+      assert (Hinc' : incl ((path ++ [c]) :: seen) (link_keys t)) by (intros x [<-|Hx]; [exact El|apply Hinc; exact Hx]).
+      pose proof (IHd (link_rest tg) (link_start path tg) ((path ++ [c]) :: seen) Hnd' Hinc') as Hin.
+      destruct (jrp d t (link_start path tg) (link_rest tg) ((path ++ [c]) :: seen)) as [p'|j|] eqn:E1.
+      * apply IH; assumption.
+      * discriminate.
+      * exfalso. apply Hin; [cbn [length]; unfold count_links, loc, comp in *; lia|reflexivity].
+Qed.
+
+Lemma realpath_fuel : forall d t cwd s, (count_links t <= d)%nat -> realpath d t cwd s <> Err OutOfFuel.
+Proof.
+  intros d t cwd s H. unfold realpath.
+  pose proof (jrp_fuel t d (tl (absolutize cwd s)) [] [] (NoDup_nil _) (incl_nil_l _)) as Hf.
+  destruct (jrp d t [] (tl (absolutize cwd s)) []); try discriminate. exfalso. apply Hf; [simpl; lia|reflexivity].
+Qed.
+
+Lemma resolve_fuel : forall d t cwd base p, (count_links t <= d)%nat -> resolve d t cwd base p <> Err OutOfFuel.
+Proof.
+  intros d t cwd base p H. unfold resolve, canonical.
+  pose proof (realpath_fuel d t cwd (join_for_resolve base p) H) as H1.
+  pose proof (realpath_fuel d t cwd base H) as H2.
+  destruct (realpath d t cwd (join_for_resolve base p)) as [q|e]; [|destruct e; try congruence; discriminate].
+  destruct (no_link_prefix t q); [|discriminate].
+  destruct (realpath d t cwd base) as [rb|e]; [|destruct e; try congruence; discriminate].
+  destruct (inside rb q); discriminate.
+Qed.
